@@ -74,7 +74,7 @@ def us_std_atm_pressure_from_altitude(z):
     """
     z = np.asarray(z)
     x = z < np.inf
-    h = np.empty_like(z)
+    h = np.empty_like(z, dtype=float) if z.dtype.kind in "iub" else np.empty_like(z)
     h[x] = z[x] * const.earth_radius / (z[x] + const.earth_radius)
     h[~x] = np.inf
 
